@@ -290,7 +290,7 @@ func c15Outputs(c *core.Ctx, cfg bandCfg, b band.Band, up, down []chModel) {
 
 func runC15(c *core.Ctx) {
 	cfgs := allBandCfgs()
-	hists := c.N(40, 2000)
+	hists := c.N(40, 10000)
 	for ci, cfg := range cfgs {
 		for h := int64(0); h < hists; h++ {
 			idx := int64(ci)<<24 | h
